@@ -155,6 +155,27 @@ pub fn per_set<S: MlDsa>(seed: u64, thorough: bool, out: &mut Out) {
             Err((loc, msg)) => out.ev(json!({"ev": "Panic", "call": "mat_vec_mul", "set": S::SET, "what": format!("{}: {}", loc, msg), "loc": loc, "msg": msg})),
         }
     }
+    // structured sparsity: vectors with all-zero polynomials in chosen positions (a product routine that special-cases
+    // zero columns -- skipping, stopping, or reordering -- is wrong exactly on these); every single zero position, and
+    // "only the first" / "only the last" polynomial non-zero
+    {
+        let rho = p.arr32();
+        let mut pats: Vec<Vec<bool>> = vec![];                 // true = polynomial j is zero
+        let singles: Vec<usize> = if thorough { (0..S::L).collect() } else { vec![0, S::L - 2] };
+        for j in singles { pats.push((0..S::L).map(|x| x == j).collect()); }
+        pats.push((0..S::L).map(|x| x != S::L - 1).collect());
+        pats.push((0..S::L).map(|x| x != 0).collect());
+        if thorough { for m in 1..(1u32 << S::L) - 1 { if m % 5 == 3 { pats.push((0..S::L).map(|x| (m >> x) & 1 == 1).collect()); } } }
+        for pat in pats {
+            let z: Vec<Poly> = pat.iter().map(|&zero| if zero { [0i32; 256] } else { rand_poly(&mut p, -S::GAMMA1 + 1, S::GAMMA1) }).collect();
+            let r = guarded(|| { let a = S::expand_a(&rho); let u = S::ntt_l(&z); let o = S::mat_vec_mul(&a, &u); (u, o) });
+            match r {
+                Ok((u, o)) => out.ev(json!({"ev": "MatVec", "set": S::SET, "rho": jbytes(&rho), "u": jv(&u), "out": jv(&o),
+                                           "what": format!("zero polynomials at {:?}", pat.iter().enumerate().filter(|(_, z)| **z).map(|(j, _)| j).collect::<Vec<_>>())})),
+                Err((loc, msg)) => out.ev(json!({"ev": "Panic", "call": "mat_vec_mul", "set": S::SET, "what": format!("{}: {}", loc, msg), "loc": loc, "msg": msg})),
+            }
+        }
+    }
     // magnitudes of every pipeline stage during real calls
     let xi = p.arr32();
     let keys = traced(out, "keygen", S::SET, "keygen_from_seed", || S::keygen_seed(&xi));
